@@ -63,11 +63,18 @@ class State:
         s.nonneg = set(self.nonneg)
         s.visits = dict(self.visits)
         s.trace = list(self.trace)
+        if hasattr(self, "pending"):
+            s.pending = dict(self.pending)
+        if hasattr(self, "nothing_written"):
+            s.nothing_written = dict(self.nothing_written)
+        if hasattr(self, "prechecked"):
+            s.prechecked = dict(self.prechecked)
         return s
 
 
 class Analysis:
-    def __init__(self, prog, fn, caps, contracts, assume=None, max_paths=4000, loads=True):
+    def __init__(self, prog, fn, caps, contracts, assume=None, max_paths=4000, loads=True, elem_scalars=False,
+                 ghost=None, nowrap=False):
         """caps: {buffer key: capacity (parameter/field path, or int)} for pointer parameters and fields;
         local arrays are discovered.  contracts: callee -> dict (see spec/bounds_contracts.json).
         assume: list of (path, op, value) preconditions, e.g. ('fifo->size', '>=', 1)."""
@@ -75,6 +82,10 @@ class Analysis:
         self.caps = dict(caps)
         self.contracts = contracts
         self.assume = assume or []
+        self.elem_scalars = elem_scalars
+        self.symbolic_bases = elem_scalars
+        self.ghost = ghost or {}
+        self.nowrap = nowrap
         self.loads = loads
         self.sites = {}
         self.fresh = 0
@@ -112,6 +123,22 @@ class Analysis:
                                 bufw.add(p)
             self.loop_mod[hid] = (mods, pmods, bufw)
         self.invariants = {}
+        self.infer_depth = 0
+        self.debug = False
+        self.inv_cache = {}
+        self.related = set()
+        for n in fn.nodes.values():
+            if n.k in ("BinaryOperator", "CompoundAssignOperator") and n.get("op") in (
+                    "<", "<=", ">", ">=", "==", "!=", "=", "+=", "-="):
+                ps = set()
+                for side in (n.child(0), n.child(1)):
+                    for x in side.walk():
+                        if x.get("path") and x.k in ("DeclRefExpr", "MemberExpr", "ArraySubscriptExpr") and x.get("tk") in INT_TK:
+                            ps.add(x["path"])
+                for a in ps:
+                    for b in ps:
+                        if a != b:
+                            self.related.add((a, b))
 
     # ---- helpers ------------------------------------------------------------------------
     def opaque(self, st, base, nonneg=False):
@@ -186,8 +213,17 @@ class Analysis:
             return None
         if s.k == "MemberExpr" and s.get("tk") in INT_TK and "[" not in (s.get("path") or "["):
             return self.var(st, s)
+        if s.k == "ArraySubscriptExpr" and s.get("tk") in INT_TK and s.get("path") and self.elem_scalars:
+            # element of a local array addressed by an unmodified index: tracked like a scalar
+            return self.var(st, s)
         if s.k == "UnaryExprOrTypeTraitExpr" and "cv" in s:
             return Lin.const(s["cv"])
+        if s.k == "BinaryOperator" and s.get("op") == "-" and s.child(0).strip_all_casts().get("tk") in ("ptr", "array") \
+                and s.child(1).strip_all_casts().get("tk") in ("ptr", "array"):
+            pa, pb = self.pointer(st, s.child(0)), self.pointer(st, s.child(1))
+            if pa is not None and pb is not None and pa[0] == pb[0]:
+                return pa[1] - pb[1]
+            return None
         if s.k == "BinaryOperator" and s.get("op") in ("+", "-"):
             a, b = self.value(st, s.child(0)), self.value(st, s.child(1))
             if a is None or b is None:
@@ -236,11 +272,19 @@ class Analysis:
             if s.id in st.pvals:
                 return st.pvals[s.id]
         p = s.get("path")
-        if s.k in ("DeclRefExpr", "MemberExpr") and p:
+        if s.k == "BinaryOperator" and s.get("op") == "=" and s.get("tk") == "ptr":
+            lp = s.child(0).strip().get("path")
+            if lp in st.ptr:
+                return st.ptr[lp]
+            return self.pointer(st, s.child(1))
+        if s.k in ("DeclRefExpr", "MemberExpr", "ArraySubscriptExpr") and p and s.get("tk") in ("ptr", "array"):
             if p in st.ptr:
                 return st.ptr[p]
             if p in self.caps:
                 return (p, Lin.const(0))
+            if self.symbolic_bases:
+                st.ptr[p] = (p + "@base", Lin.const(0))
+                return st.ptr[p]
             return None
         if s.k == "BinaryOperator" and s.get("op") in ("+", "-"):
             a = self.pointer(st, s.child(0))
@@ -358,6 +402,12 @@ class Analysis:
                 new = old + Lin.const(d)
                 st.env[p] = new
                 st.vals[n.id] = old if n.get("postfix") else new
+                for key in list(st.env):
+                    if "[" + p + "]" in key:
+                        del st.env[key]
+                for key in list(st.ptr):
+                    if "[" + p + "]" in key:
+                        del st.ptr[key]
             return
         if k in ("BinaryOperator", "CompoundAssignOperator") and n.get("op") in C.ASSIGN_OPS:
             t = n.child(0).strip()
@@ -378,6 +428,8 @@ class Analysis:
                                              "the index `%s` is a size_t subtraction that wraps below zero" % t.child(1).src,
                                              [repr(c) + " <= 0" for c in st.cons][:12], w))
                         return
+                if self.elem_scalars and t.k == "ArraySubscriptExpr" and t.get("path") and t.get("tk") in INT_TK:
+                    self.scalar_store(st, n, t, op)
                 if base is not None:
                     self.oblige(st, n, "store", base[0], (base[1] + idx) if idx is not None else None, Lin.const(1), n.src)
                     # writing a NUL at a known index bounds the string length
@@ -407,21 +459,7 @@ class Analysis:
                         st.ptr.pop(p, None)
                 return
             if p and t.get("tk") in INT_TK:
-                rhs = self.value(st, n.child(1))
-                if op == "=":
-                    new = rhs
-                elif op in ("+=", "-=") and rhs is not None:
-                    old = self.var(st, t)
-                    new = old + rhs if op == "+=" else old - rhs
-                    if op == "-=" and self.is_unsigned(t) and not entails(st.cons, le(rhs, old)):
-                        new = None
-                        st.complete = False
-                else:
-                    new = None
-                if new is None:
-                    new = self.opaque(st, p, nonneg=self.is_unsigned(t))
-                st.env[p] = new
-                st.vals[n.id] = new
+                self.scalar_store(st, n, t, op)
             return
         if k == "ArraySubscriptExpr" and self.loads:
             par = fn.parent_of(n)
@@ -437,8 +475,71 @@ class Analysis:
             if v is not None:
                 st.vals[n.id] = v
 
+    def scalar_store(self, st, n, t, op):
+        p = t["path"]
+        rhs = self.value(st, n.child(1))
+        if op == "=":
+            new = rhs
+        elif op in ("+=", "-=") and rhs is not None:
+            old = self.var(st, t)
+            new = old + rhs if op == "+=" else old - rhs
+            if op == "-=" and self.is_unsigned(t):
+                if self.nowrap:
+                    self.oblige_fact(st, n, "arith", le(rhs, old),
+                                     "`%s`: the unsigned counter must not be decreased below zero" % n.src)
+                if not entails(st.cons, le(rhs, old)):
+                    new = None
+                    st.complete = False
+        else:
+            new = None
+        if new is None:
+            new = self.opaque(st, p, nonneg=self.is_unsigned(t))
+        st.env[p] = new
+        st.vals[n.id] = new
+        # an index variable changed: forget array elements addressed through it
+        for key in list(st.env):
+            if "[" + p + "]" in key:
+                del st.env[key]
+        for key in list(st.ptr):
+            if "[" + p + "]" in key:
+                del st.ptr[key]
+
+    def oblige_fact(self, st, node, kind, goal, text):
+        site = self.sites.setdefault(node.id, Site(node, kind, text))
+        if entails(st.cons, goal):
+            site.results.append((True, st.complete, False, text, None, None))
+            return
+        syms = set(goal.syms())
+        hv = bool(syms & st.havoc)
+        wit = None
+        neg = Lin.const(1) - goal
+        rel = [neg]
+        pool = list(st.cons)
+        changed = True
+        while changed:
+            changed = False
+            for c in list(pool):
+                if c.syms() & syms:
+                    rel.append(c)
+                    syms |= c.syms()
+                    pool.remove(c)
+                    changed = True
+        if not (syms & st.dropped) and not (syms & st.havoc):
+            m = find_model(rel, syms)
+            if m is not None:
+                wit = {k.replace("@0", "").split("#")[0]: int(v) for k, v in m.items()}
+        site.results.append((False, st.complete, hv, text, [repr(c) + " <= 0" for c in st.cons][:14], wit))
+
+    def loop_vars(self):
+        out = set()
+        for mods, pmods, bufw in self.loop_mod.values():
+            out |= mods
+        return out
+
     def do_call(self, st, n):
         name = n.get("callee")
+        if name in self.ghost:
+            self.ghost[name](self, st, n)
         args = C.call_args(n)
         ct = self.contracts.get(name or "")
         if ct is None:
@@ -549,6 +650,12 @@ class Analysis:
             if d is not None:
                 cur = st.slen.get(d[0])
                 site = self.sites.setdefault(n.id, Site(n, "read", n.src))
+                if cur is None and self.cap_of(st, d[0]) is None:
+                    # a C string handed in by the caller / a literal: not one of the tracked buffers
+                    ret = self.new_sym(st, "strlen", nonneg=True)
+                    st.vals[n.id] = ret
+                    self.sites.pop(n.id, None) if not self.sites.get(n.id) or not self.sites[n.id].results else None
+                    return
                 if cur is None:
                     wit = None
                     nw = getattr(st, "nothing_written", {}).get(d[0])
@@ -578,6 +685,16 @@ class Analysis:
                     st.slen[d[0]] = ("eq", d[1] + ret)
             else:
                 ret = self.new_sym(st, "strlen", nonneg=True)
+        elif kind == "find_in":                   # returns NULL or a pointer into [arg0, arg0 + arg1)
+            d = aptr(0)
+            nn = aval(1)
+            if d is not None:
+                off = self.new_sym(st, "found", nonneg=True)
+                st.pvals[n.id] = (d[0], d[1] + off)
+                st.pending = dict(getattr(st, "pending", {}))
+                if nn is not None:
+                    st.pending[list(off.syms())[0]] = [le(off, nn - Lin.const(1))]
+            return
         elif kind == "strnlen":
             ret = self.new_sym(st, "strnlen", nonneg=True)
             nn = aval(1)
@@ -704,7 +821,15 @@ class Analysis:
                 else:
                     st.cons += [v, v.scale(-1)]
             return
-        if a.get("tk") == "ptr" or a.k in ("UnaryOperator",):
+        if a.get("tk") == "ptr":
+            if pol:
+                pv = self.pointer(st, a)
+                if pv is not None:
+                    for sy in pv[1].syms():
+                        for c in getattr(st, "pending", {}).get(sy, []):
+                            st.cons.append(c)
+            return
+        if a.k in ("UnaryOperator",):
             return
         if a.k == "BinaryOperator" and a.get("op") in ("&&", "||"):
             return
@@ -742,8 +867,12 @@ class Analysis:
                 return
             if cnt == 1:
                 self.havoc_loop(st, b)
-            elif cnt == 0 and stop_head is None:
-                self.infer_invariants(st, b)
+            elif cnt == 0 and b.id != stop_head and self.infer_depth < 2:
+                self.infer_depth += 1
+                try:
+                    self.infer_invariants(st, b)
+                finally:
+                    self.infer_depth -= 1
             st.visits[b.id] = cnt + 1
         for e in b.elems:
             self.do_elem(st, e)
@@ -767,6 +896,8 @@ class Analysis:
                             continue
                         if self.npaths > self.max_paths:
                             return
+                        if stop_head is not None and s.id not in self.loops[stop_head]:
+                            continue
                         self.walk(s, fq, stop_head, collect)
                     continue
                 for atom, apol in C.cond_facts(lab[1], pol):
@@ -785,6 +916,8 @@ class Analysis:
                         continue
             if self.npaths > self.max_paths:
                 return
+            if stop_head is not None and s.id not in self.loops[stop_head]:
+                continue      # the inductive check follows only paths that stay inside the loop
             self.walk(s, q, stop_head, collect)
 
     def havoc_loop(self, st, head):
@@ -818,18 +951,40 @@ class Analysis:
         """Houdini over difference and bound templates on the loop's integer variables"""
         mods, pmods, bufw = self.loop_mod[head.id]
         vars_ = sorted(p for p in mods if p in st.env and st.env[p] is not None)
-        cands = []
-        # templates are written over variable NAMES (as symbols) and instantiated by substitution
+        tagged = []     # (template tag, constraint)
         for v in vars_:
             v0 = st.env[v]
-            if v0.is_const() or True:
-                cands.append(le(v0, Lin.sym(v)))        # v >= v0
-                cands.append(le(Lin.sym(v), v0))        # v <= v0
+            tagged.append((("ge0", v), le(v0, Lin.sym(v))))        # v >= v0
+            tagged.append((("le0", v), le(Lin.sym(v), v0)))        # v <= v0
         for i, a in enumerate(vars_):
             for b in vars_[i + 1:]:
+                if (a, b) not in self.related and not (a.startswith("$") or b.startswith("$")):
+                    continue
                 d = st.env[a] - st.env[b]
-                cands.append(le(Lin.sym(a) - Lin.sym(b), d))   # a - b <= a0 - b0
-                cands.append(le(d, Lin.sym(a) - Lin.sym(b)))   # a - b >= a0 - b0
+                tagged.append((("dle", a, b), le(Lin.sym(a) - Lin.sym(b), d)))   # a - b <= a0 - b0
+                tagged.append((("dge", a, b), le(d, Lin.sym(a) - Lin.sym(b))))   # a - b >= a0 - b0
+                sm = st.env[a] + st.env[b]
+                tagged.append((("sum", a, b), le(Lin.sym(a) + Lin.sym(b), sm)))  # a + b <= a0 + b0  (conservation)
+                for x, y in ((a, b), (b, a)):
+                    for tg, c0 in ((("ole", x, y), le(Lin.sym(x), Lin.sym(y))), (("olt", x, y), lt(Lin.sym(x), Lin.sym(y)))):
+                        inst = c0.subst({x: st.env[x], y: st.env[y]})
+                        if entails(st.cons, inst):
+                            tagged.append((tg, c0))
+        for v in vars_:
+            for k0 in (0, 1):
+                c0 = le(Lin.const(k0), Lin.sym(v))
+                if entails(st.cons, c0.subst({v: st.env[v]})):
+                    tagged.append((("lb", v, k0), c0))
+        cached = self.inv_cache.get(head.id)
+        if cached is not None:
+            # only templates that survived an earlier inference are tried again; they are re-verified
+            # (base case by construction / entailment above, inductiveness below) in this context
+            tagged = [(t, c) for t, c in tagged if t in cached]
+        tag_of = {}
+        cands = []
+        for t, c in tagged:
+            cands.append(c)
+            tag_of[id(c)] = t
         # pointer offsets of loop-modified pointers
         kept = list(cands)
         for _ in range(6):
@@ -857,11 +1012,16 @@ class Analysis:
                     inst = c.subst({v: end.env.get(v, Lin.sym(v)) for v in c.syms()})
                     if not entails(end.cons, inst):
                         failed.add(c)
+                        if self.debug:
+                            print("HOUDINI head", head.id, "drop", c, "| end:", {v: end.env.get(v) for v in c.syms()},
+                                  "| entry:", {v: entry_env.get(v) for v in c.syms()}, "| complete", end.complete)
                         break
             if not failed:
                 break
             kept = [c for c in kept if c not in failed]
         self.invariants[head.id] = kept
+        if cached is None:
+            self.inv_cache[head.id] = {tag_of[id(c)] for c in kept if id(c) in tag_of}
 
     def walk_from_head(self, head, st, coll):
         fn = self.fn
